@@ -240,6 +240,12 @@ Step ==
                \A b \in liveA : b[3] > 0 =>
                   Cardinality({k \in 1..Len(e.it) : e.it[k][1] <= b[2] /\ b[2] + b[3] <= e.it[k][1] + e.it[k][2]}) = 1,
             <<e.it>>)
+     \* the chunk snapshot of every event is what iter_allocated_chunks_raw would yield right now
+     /\ Chk("C10", "EveryLiveBlockInsideAllocatedRegion",
+            (e.op # "drop" /\ validMa) =>
+               \A b \in liveA : b[3] > 0 =>
+                  \E k \in 1..nch : chunks[k][3] <= b[2] /\ b[2] + b[3] <= chunks[k][2],
+            <<{b \in liveA : b[3] > 0 /\ ~\E k \in 1..nch : chunks[k][3] <= b[2] /\ b[2] + b[3] <= chunks[k][2]}, chunks>>)
      /\ Chk("C10", "UniformSlicesContainExactlyTheObjects",
             (e.op = "iter" /\ e.tag = "uniform") =>
                \A k \in 1..Len(e.it) :
